@@ -196,7 +196,7 @@ func (s *Set) ParseFile(path string) error {
 				return fmt.Errorf("%s:%d: assigns outside a func block", path, c.line)
 			}
 			cur.Assigned = true
-			for _, a := range strings.Split(rest, ",") {
+			for _, a := range splitTop(rest) {
 				a = strings.TrimSpace(a)
 				if a != "" && a != "nothing" {
 					cur.Assigns = append(cur.Assigns, a)
@@ -343,4 +343,24 @@ func parseHeader(pkgName, hdr string, ext bool) (*Func, error) {
 		}
 	}
 	return fn, nil
+}
+
+// splitTop splits at commas that are not inside parentheses or brackets.
+func splitTop(s string) []string {
+	var out []string
+	depth, start := 0, 0
+	for i, c := range s {
+		switch c {
+		case '(', '[':
+			depth++
+		case ')', ']':
+			depth--
+		case ',':
+			if depth == 0 {
+				out = append(out, s[start:i])
+				start = i + 1
+			}
+		}
+	}
+	return append(out, s[start:])
 }
